@@ -838,6 +838,11 @@ namespace awkward {
       else if (dynamic_cast<SliceArray64*>(x.get()) != nullptr) {
         out += 1;
       }
+      else if (SliceMissing64* missing = dynamic_cast<SliceMissing64*>(x.get())) {
+        if (dynamic_cast<SliceArray64*>(missing->content().get()) != nullptr) {
+          out += 1;
+        }
+      }
     }
     return out;
   }
@@ -969,6 +974,18 @@ namespace awkward {
         + FILENAME(__LINE__));
     }
 
+    int64_t numellipsis = 0;
+    for (size_t i = 0;  i < items_.size();  i++) {
+      if (dynamic_cast<SliceEllipsis*>(items_[i].get()) != nullptr) {
+        numellipsis++;
+      }
+    }
+    if (numellipsis > 1) {
+      throw std::invalid_argument(
+        std::string("a slice can have no more than one ellipsis ('...')")
+        + FILENAME(__LINE__));
+    }
+
     std::vector<int64_t> shape;
     for (size_t i = 0;  i < items_.size();  i++) {
       if (SliceArray64* array = dynamic_cast<SliceArray64*>(items_[i].get())) {
@@ -986,7 +1003,7 @@ namespace awkward {
             if (arrayshape[j] == 0) {
               shape[j] = 0;
             }
-            else if (arrayshape[j] > shape[j]) {
+            else if (shape[j] != 0  &&  arrayshape[j] > shape[j]) {
               shape[j] = arrayshape[j];
             }
           }
